@@ -65,6 +65,20 @@ def with_cfg(**kw):
 
 
 # ------------------------------------------------------------------ terms
+def variant_term(src, t, vars_, cfg, depth=0):
+    k = src.n(8)
+    if k == 0 and vars_:
+        return src.pick(vars_)
+    if t[0] == 'f':
+        if k == 1 and vars_:
+            v = src.pick(vars_)
+            return ('f', t[1], tuple(v for _ in t[2]))                 # one variable in every argument position
+        return ('f', t[1], tuple(variant_term(src, a, vars_, cfg, depth + 1) if src.n(2) else a for a in t[2]))
+    if k == 2:
+        return gen_term(src, vars_, cfg, cfg.max_term_depth)
+    return t
+
+
 def anon_var(src):
     """a fresh variable that occurs once and is always printed as `_`"""
     src.anon = getattr(src, 'anon', 0) + 1
@@ -131,10 +145,14 @@ def gen_callable(src, vars_, preds, cfg):
 
 def gen_goal(src, vars_, preds, cfg):
     k = src.n(20)
-    if cfg.eq_goals and k == 16:
-        return ('call', ('f', '=', (gen_term(src, vars_, cfg), gen_term(src, vars_, cfg))))
-    if cfg.eq_goals and k == 17:
-        return ('call', ('f', '\\=', (gen_term(src, vars_, cfg), gen_term(src, vars_, cfg))))
+    if cfg.eq_goals and k in (16, 17):
+        a = gen_term(src, vars_, cfg)
+        # the second operand is often a variant of the first (same functor, sub-terms replaced by variables or
+        # other terms, a variable repeated): near-misses are where = and \\= can go wrong
+        b = variant_term(src, a, vars_, cfg) if src.n(2) else gen_term(src, vars_, cfg)
+        if src.n(2):
+            a, b = b, a
+        return ('call', ('f', '=' if k == 16 else '\\=', (a, b)))
     if cfg.meta and k in (12, 13, 14, 15):
         m = gen_meta(src, vars_, preds, cfg)
         if src.n(3) == 2:
@@ -147,6 +165,9 @@ def gen_goal(src, vars_, preds, cfg):
             if src.n(3) == 2:
                 src.gv += 1
                 g2 = ('v', 'G%d' % src.gv)
+                if src.n(2):
+                    # G is aliased to G2 first, G2 is bound afterwards: call(G) must look through the chain
+                    return (',', ('call', ('f', '=', (g, g2))), (',', ('call', ('f', '=', (g2, inner))), ('call', m2)))
                 return (',', ('call', ('f', '=', (g2, g))), (',', ('call', ('f', '=', (g2, inner))), ('call', m2)))
             return (',', ('call', ('f', '=', (g, inner))), ('call', m2))
         return ('call', m)
@@ -310,6 +331,15 @@ def gen_head(src, name, n, vars_, cfg):
     if n == 0:
         return ('a', name)
     args = []
+    shape = src.n(6)
+    if shape == 5 and vars_:
+        # "accessor" shape: the first clause variable alone at a fixed position, everything else ground - the
+        # same variable name then recurs at the same argument position in several clauses of the predicate
+        pos = (len(name) + n) % n
+        return ('f', name, tuple(vars_[0] if i == pos else gen_term(src, [], cfg, 1) for i in range(n)))
+    if shape == 4:
+        # ground head: the clause's variables occur in the body only
+        return ('f', name, tuple(gen_term(src, [], cfg, 1) for i in range(n)))
     for i in range(n):
         k = src.n(8)
         if k == 6 and vars_ and args:
@@ -342,6 +372,10 @@ def gen_program(src, cfg):
                 libs.append(nm)
     clauses = []
     ncl = cfg.min_clauses + src.n(cfg.max_clauses - cfg.min_clauses + 1)
+    if src.n(4) == 3:
+        # few predicates with many clauses each (clause interplay inside one generated function)
+        preds = preds[:1 + src.n(2)]
+        ncl = max(ncl, 4 + src.n(5))
     protos = []
     for _ in range(ncl):
         name, n = src.pick(preds)
@@ -493,7 +527,12 @@ def body_tokens(b, names, src, ctx=4, full=False):
 def clause_tokens(head, body, src, full=False):
     vs = term_vars(head, [])
     body_vars(body, vs)
-    style = VAR_STYLES[src.n(len(VAR_STYLES))] if src is not None else VAR_STYLES[0]
+    if src is None:
+        style = VAR_STYLES[0]
+    elif getattr(src, 'program_style', None) is not None:
+        style = src.program_style                  # one naming style for the whole program (names recur across clauses)
+    else:
+        style = VAR_STYLES[src.n(len(VAR_STYLES))]
     names = {v: style(i) for i, v in enumerate(vs)}
     for v in vs:
         if isinstance(v[1], str) and v[1].startswith('_'):
@@ -565,6 +604,7 @@ def program_text(clauses, src=None, full=False):
     if src is not None:
         src.mark_structure_done()
         mode = src.n(4)          # 0, 1: naming/quoting choices only; 2: light layout; 3: heavy layout
+        src.program_style = VAR_STYLES[src.n(len(VAR_STYLES))] if src.n(4) else None
     for h, b in clauses:
         toks = clause_tokens(h, b, src, full)
         if src is not None and mode < 2:
